@@ -71,6 +71,7 @@ type c07case struct {
 	//  prior-records   the logger logged without arguments, another logger (own attributes and arguments) logged in between, twice
 	//  ctx-keys-reset  other context keys were registered and removed with ResetContextKeys before the final ones were registered
 	//  colliding-pairs the logger first logged with plain "key", value pairs that collide with every key of the chain and of the context
+	//  attrs-in-steps  every logger was given its own attributes one call at a time (SetAttrs, SetAttrs1, ... and Set for the last one)
 	//  groups-mutated  every group (own and call-site) was built with other members, printed once, then given its final members through SetValue/Add
 	Pre string `json:"pre,omitempty"`
 }
@@ -238,6 +239,19 @@ func c07emit(cas c07case) (payloads []string, pan string) {
 			l = slog.VerifEntryOf(slog.New(name))
 		} else {
 			l = l.New(name)
+		}
+		if cas.Pre == "attrs-in-steps" {
+			for i, a := range attrs {
+				switch {
+				case i == len(attrs)-1:
+					l.Set(a)
+				case i%2 == 0:
+					l.SetAttrs(a)
+				default:
+					l.SetAttrs1(slog.Attrs{a})
+				}
+			}
+			continue
 		}
 		// alternate between the ways of giving a logger its attributes
 		switch (d + len(own)) % 4 {
@@ -473,7 +487,7 @@ func ownLists(depth int) [][]kv {
 		nil,
 		{{K: "a", ID: b + 1}},
 		{{K: "a", ID: b + 1}, {K: "b", ID: b + 2}},
-		{{K: "b", ID: b + 1}, {K: "a", ID: b + 2}, {K: "a", ID: b + 3}},
+		{{K: "a", ID: b + 4}, {K: "b", ID: b + 1}, {K: "a", ID: b + 2}, {K: "a", ID: b + 3}},
 		{{K: "g", IsG: true, G: []kv{{K: "y", ID: b + 1}, {K: "x", ID: b + 2}, {K: "x", ID: b + 3}}}},
 	}
 }
@@ -624,7 +638,7 @@ func c07cases(thorough bool, emit func(c07case)) {
 							emit(cas)
 							seq++
 							if thorough || seq%3 == 0 || n == 0 {
-								cas.Pre = []string{"prior-records", "ctx-keys-reset", "groups-mutated", "colliding-pairs"}[(seq/3)%4]
+								cas.Pre = []string{"prior-records", "ctx-keys-reset", "groups-mutated", "colliding-pairs", "attrs-in-steps"}[(seq/3)%5]
 								emit(cas)
 							}
 						}
